@@ -1609,6 +1609,20 @@ fn handle_message(
         }
     }
 
+    // A message with an id is a request even when its method is
+    // normally a notification (e.g. `textDocument/didOpen`), so the
+    // client is waiting: make sure it always gets an answer.
+    if let (Some(id), Some(method)) = (message.get("id"), parsed.method.as_deref()) {
+        if !id.is_null() && !outgoing.iter().any(|m| m.get("id") == Some(id)) {
+            push_error(
+                &mut outgoing,
+                id.clone(),
+                ErrorCodes::InvalidRequest,
+                format!("{method} is a notification and cannot be sent as a request."),
+            );
+        }
+    }
+
     (outgoing, action)
 }
 
